@@ -482,7 +482,11 @@ def run_check(prop, suites, tier, seed, level_note, trusted_extra=(), replay=Non
         "violations": len(violations),
     }
     if replay is None:
-        with open(os.path.join(VERIF, "evidence", f"{prop}.json"), "w") as f:
+        # evidence describes /repo itself; a run against a scratch copy (mutant trials) is kept apart
+        evdir = os.path.join(VERIF, "evidence") if os.path.realpath(os.environ.get("VERIF_REPO", "/repo")) == "/repo" \
+            else os.path.join(BUILD, "scratch_evidence")
+        os.makedirs(evdir, exist_ok=True)
+        with open(os.path.join(evdir, f"{prop}.json"), "w") as f:
             json.dump(ev, f, indent=1, default=str)
     print(f"[{prop}] tier={tier} seed={seed} proof={proof['discharged']}/{proof['obligations']} "
           f"cases={total} distinct_nontrivial={len(distinct)} violations={len(violations)} "
